@@ -543,6 +543,14 @@ func (w *World) bpfObligations() ([]bpfOb, []string) {
 		// turn into a hop) is captured; a filter that accepts more than the reference is no completeness violation
 		out = append(out, bpfOb{Name: "packets." + p.name + "#C02.captures", Text: "for all frames, lengths and configurations: reference predicate of the property statement ==> program accepts", Pos: p.pos,
 			Query: b.String() + "(assert (and " + ref + " (not " + acc + ")))\n", Instrs: len(p.ins), Acc: acc, Ref: ref, Prop: "C02"})
+		if p.name == "icmpFilter" {
+			// first clause of C12 for a frame form outside the statement's own exactness clause: gopacket's IPv6 decoder folds a
+			// hop-by-hop options header into the IPv6 layer, so the ICMP matchers turn "IPv6, next header 0, hop-by-hop header
+			// naming ICMPv6" into a hop exactly like a plain ICMPv6 frame — the filter must therefore let it through
+			hbh := "(and " + refIsIPv6 + " " + has(55) + " (= " + u8(20) + " #x00) (= " + u8(54) + " #x3a))"
+			out = append(out, bpfOb{Prop: "C12", Name: "packets." + p.name + "#C12.covers.hbh", Text: "for all frames: IPv6 with a hop-by-hop options header that names ICMPv6 as next header (a form the ICMP matchers accept, the decoder folds the options header into the IPv6 layer) ==> program accepts", Pos: p.pos,
+				Query: b.String() + "(assert (and " + hbh + " (not " + acc + ")))\n", Instrs: len(p.ins), Acc: acc, Ref: hbh})
+		}
 		b.WriteString("(assert (not (= " + acc + " " + ref + ")))\n")
 		out = append(out, bpfOb{Prop: "C12", Name: "packets." + p.name + "#C12.exact", Text: "for all frames, lengths and configurations: program accepts <=> reference predicate of the property statement", Pos: p.pos, Query: b.String(), Instrs: len(p.ins), Acc: acc, Ref: ref})
 	}
